@@ -142,6 +142,79 @@ def bitfieldslot_bounds(ctx, B):
         B.fb[('Teakra::BitFieldSlot', 'length')] = (min(ln), max(ln))
 
 
+def vector_subscript_ok(f, n):
+    from ..norm import Renderer
+    """std::vector subscripts have no static extent; accept the idioms whose index is provably below size():
+         v[i] inside `for (i = 0; i < v.size() [- c]; ++i)`, v[k] with k = v.size() - c under a guard that the vector has
+         at least c elements, locals standing for such expressions; the vector must not shrink in the function.
+       returns True / False, or None when n is not a vector subscript"""
+    from .. import boolform
+    from ..normalize import is_pure
+    cls = str(n.get('cls', ''))
+    if not cls.startswith('std::vector<') or len(n.get('args', [])) != 2:
+        return None
+    base, idx = n['args']
+    if not is_pure(base):
+        return False
+    R = Renderer(f, inline_locals=False)
+    bt = R.r(base)
+    for x in walk(f.get('body')):
+        if x.get('k') == 'call' and x.get('obj') is not None and x.get('name') in ('pop_back', 'clear', 'erase', 'resize', 'shrink_to_fit') \
+                and R.r(x['obj']) == bt:
+            return False
+        if x.get('k') in ('assign',) and R.r(x.get('lhs')) == bt:
+            return False
+    FM = boolform.Former(f, renderer=R, expand_locals=False)
+    single = Renderer(f, inline_locals='pure').locals
+    loops = [l for l in walk(f.get('body')) if l.get('k') == 'for']
+
+    def is_size(e):
+        e = unwrap_casts(e)
+        return isinstance(e, dict) and e.get('k') == 'call' and e.get('name') == 'size' and e.get('obj') is not None and R.r(e['obj']) == bt
+
+    def at_least(node, c):
+        """is size() >= c known where `node` is evaluated"""
+        if c <= 0:
+            return True
+        pc = boolform.path_condition(f['body'], node, FM)
+        size_t = '(call %s::size on %s )' % (cls, bt)
+        empty_t = '(call %s::empty on %s )' % (cls, bt)
+        if c == 1 and (boolform.implies(pc, boolform.neg(boolform.A(empty_t))) is True or boolform.implies(pc, boolform.A(size_t)) is True):
+            return True
+        return boolform.implies(pc, boolform.neg(boolform.A('(< %s %d)' % (size_t, c)))) is True
+
+    def slack(e, depth=0):
+        """c such that e <= size() - c, or None"""
+        e = unwrap_casts(e)
+        if not isinstance(e, dict) or depth > 6:
+            return None
+        if is_size(e):
+            return 0
+        if e.get('k') == 'bin' and e.get('op') == '-':
+            c = const_value(unwrap_casts(e.get('rhs')))
+            s0 = slack(e.get('lhs'), depth + 1)
+            if c is not None and c >= 0 and s0 is not None and at_least(e, c - s0 if s0 < c else 0):
+                return s0 + c
+            return None
+        if e.get('k') == 'ref' and e.get('dk') == 'local':
+            for l in loops:
+                inc = unwrap_casts(l.get('inc'))
+                if isinstance(inc, dict) and inc.get('k') == 'un' and inc.get('op') in ('++', 'post++') \
+                        and unwrap_casts(inc.get('e')).get('name') == e['name'] and any(x is e for x in walk(l.get('body'))):
+                    c = unwrap_casts(l.get('cond'))
+                    if isinstance(c, dict) and c.get('k') == 'bin' and c.get('op') in ('<', '!=') and unwrap_casts(c['lhs']).get('name') == e['name']:
+                        s0 = slack(c['rhs'], depth + 1)
+                        # the index must not be changed in the body
+                        if s0 is not None and not any(x.get('k') == 'assign' and unwrap_casts(x.get('lhs')).get('name') == e['name'] for x in walk(l.get('body'))):
+                            return s0 + 1
+                    return None
+            if e['name'] in single:
+                return slack(single[e['name']], depth + 1)
+        return None
+    s0 = slack(idx)
+    return s0 is not None and s0 >= 1
+
+
 def o1_subscripts(ctx, B):
     R = 'C18.O1'
     ctx.rule(R, 'every array / std::array / bitset / pointer subscript in the library has an index interval inside the '
@@ -167,6 +240,9 @@ def o1_subscripts(ctx, B):
             ctx.touch(f)
             ext, desc = extent_of(ctx, n, f)
             inst = render(n, f, inline_locals=False)[:90]
+            if ext is None and vector_subscript_ok(f, n) is True:
+                ctx.notes.append('vector subscript proved below size(): %s:%s' % (f['file'], n.get('l')))
+                continue
             if ext is None:
                 # char* / iterators of the C binding: decided in C05; strings
                 bt = str((n.get('base') or {}).get('t', ''))
